@@ -559,12 +559,16 @@ class Interp(Engine):
                 finally:
                     self.inline_stack.pop()
                     self.cur_frame = saved
-        if func.key.endswith("swc_utils/base.py:traverse") and func.key != self.cur_key:
+        # options["inline_calls"] = [key suffixes]: the carrier's contract asks for these callees to be interpreted from
+        # their repository AST (inlined) even though a modular contract exists -- always sound, used where the inputs are
+        # concrete enough (fixed topology) for the real code to be executed symbolically
+        force_inline = cc is not None and any(func.key.endswith(sfx) for sfx in cc.options.get("inline_calls", ()))
+        if func.key.endswith("swc_utils/base.py:traverse") and func.key != self.cur_key and not force_inline:
             cb = [kwargs.get("enter"), kwargs.get("leave")]
             if any(x is not None and not isinstance(x, Callback) for x in cb) and not (cc is not None and cc.options.get("modular_traverse_ok")):
                 # a modular `traverse` contract cannot account for what real callbacks do to the caller's state
                 raise Unsupported("call of traverse with real callbacks: the carrier's contract needs options['traverse_rule']")
-        c = self.registry.get(func.key)
+        c = None if force_inline else self.registry.get(func.key)
         # the modular rule needs a contract that says what the call returns / may modify; a contract that only
         # constrains its own carrier (no `returns`, no `modifies`) is inlined at call sites (always sound)
         if c is not None and not c.pure_inline and (c.returns is not None or c.modifies or c.trusted or c.options.get("modular")):
@@ -592,7 +596,10 @@ class Interp(Engine):
         node = func.node
         if isinstance(node, ast.Lambda):
             return self.ev(node.body, fr)
-        if any(isinstance(x, (ast.Yield, ast.YieldFrom)) for x in ast.walk(node) if not isinstance(x, (ast.Lambda,))):
+        isgen = getattr(node, "_pyvc_isgen", None)  # memoised on the AST node (pure function of the node)
+        if isgen is None:
+            isgen = node._pyvc_isgen = any(isinstance(x, (ast.Yield, ast.YieldFrom)) for x in ast.walk(node) if not isinstance(x, (ast.Lambda,)))
+        if isgen:
             return self.models.run_generator(self, func, fr)
         try:
             self.exec_block(node.body, fr)
